@@ -173,6 +173,7 @@ def evaluate(mod, cases, timeout_s, nproc):
     model_all = oracle.run_parallel(reqs, nproc=min(nproc, 8))
     t2 = time.time()
     out = []
+    n_skipped = sum(1 for r in impl_res if isinstance(r, dict) and r.get("skipped"))
     for c, r, (s, k) in zip(cases, impl_res, spans):
         mres = model_all[s:s + k]
         failure = None
@@ -193,7 +194,8 @@ def evaluate(mod, cases, timeout_s, nproc):
                 failure = j if isinstance(j, dict) else {"kind": "mismatch", "reason": str(j)}
                 failure.setdefault("kind", "mismatch")
         out.append((c, r, mres, failure))
-    return out, {"impl_s": round(t1 - t0, 2), "oracle_s": round(t2 - t1, 2), "oracle_requests": len(reqs)}
+    return out, {"impl_s": round(t1 - t0, 2), "oracle_s": round(t2 - t1, 2), "oracle_requests": len(reqs),
+                 "skipped_after_repeated_timeouts": n_skipped}
 
 
 def shrink(mod, case, timeout_s, budget=150, seconds=12.0):
@@ -449,6 +451,9 @@ def main(argv):
         print(f"KNOWN-FINDING: property={pid} {k['id']} {k['what']}")
     for path, suffix in violations:
         print(f"VIOLATION property={pid} replay={path}{suffix}")
+    if timing.get("skipped_after_repeated_timeouts"):
+        print(f"[{pid} {tier}] NOTE: {timing['skipped_after_repeated_timeouts']} cases were not evaluated (run cut short "
+              f"after repeated watchdog timeouts)")
     print(f"[{pid} {tier}] theorems={obligations} discharged={discharged} cases={n_eval} "
           f"nontrivial={len(nontriv)} failures={len(concrete_failures)} known={len(known_hits)} wall={wall}s")
     return 1 if violations else 0
